@@ -23,8 +23,16 @@ def desc(t, bn=0, ch=False, a=0, k=0, n=0):
 
 class SimPicc(object):
     def __init__(self, applet, fsci=8, fwi=4, rchunk=None, wtx_plan=(), wtxm=2, typ="A",
-                 nfcid=b"\x08\x11\x22\x33"):
+                 nfcid=b"\x08\x11\x22\x33", ats="abc"):
+        """ats (Type A): which interface bytes the ATS carries - any subset of "abc" (TA(1), TB(1), TC(1)), or
+        "none" for an ATS of TL only.  What is not announced takes the standard's default (FSCI 2, FWI 4), and the
+        card itself lives by the announced/default values (self.fsci, self.fwi)."""
         self.applet = applet
+        self.ats = ats
+        if typ == "A" and ats == "none":
+            fsci, fwi = 2, 4
+        elif typ == "A" and "b" not in ats:
+            fwi = 4
         self.fsci, self.fwi, self.typ = fsci, fwi, typ
         self.fsc = FSC_TABLE[fsci]
         self.fsd = None
@@ -58,8 +66,15 @@ class SimPicc(object):
             fsdi = cmd[1] >> 4
             self.fsd = FSC_TABLE[min(fsdi, 8)]
             self.active = True
-            # TL T0(TA,TB,TC present | FSCI) TA TB(FWI|SFGI) TC hist
-            return bytes([0x06, 0x70 | self.fsci, 0x77, (self.fwi << 4) | 0x01, 0x02, 0x80])
+            # TL T0(TA,TB,TC present | FSCI) [TA] [TB(FWI|SFGI)] [TC] historical bytes
+            if self.ats == "none":
+                return b"\x01"
+            t0 = self.fsci | (0x10 if "a" in self.ats else 0) | (0x20 if "b" in self.ats else 0) | \
+                (0x40 if "c" in self.ats else 0)
+            body = bytes([t0]) + (b"\x77" if "a" in self.ats else b"") + \
+                (bytes([(self.fwi << 4) | 0x01]) if "b" in self.ats else b"") + \
+                (b"\x02" if "c" in self.ats else b"") + b"\x80\xC1\xE5"
+            return bytes([1 + len(body)]) + body
         if self.typ == "B" and len(cmd) == 9 and cmd[0] == 0x1D and cmd[1:5] == self.nfcid:
             self.fsd = FSC_TABLE[min(cmd[6] & 0x0F, 8)]
             self.active = True
